@@ -1,74 +1,6 @@
-import Generated.Live
-
-/-!
-# Code skeletons — the order of effects the models assume, re-read from /repo on every run
-
-`harness/live.py` extracts, from the abstract syntax tree of the working tree, the ordered list of
-watched calls / yields / compound statements of the functions whose *order of effects* the models
-`Checkpoint`, `DumpFs`, `LoadChain` and `Stats` were written from.  The statements below are the facts
-about that order which the model-level theorems rely on; they are decided by evaluation on the
-regenerated lists, so a reordering in the code breaks a proof obligation of the property named in
-the theorem.  (A harmless rewrite can break one too: the check then looks for a failing input.)
--/
-
-namespace Df.Live
-
-/-- `a` occurs, `b` occurs, and the first `a` is before the first `b` -/
-def before (l : List String) (a b : String) : Bool :=
-  l.idxOf a < l.idxOf b && l.idxOf b < l.length
-
-/-- no occurrence of `a` follows the first `b` -/
-def noneAfter (l : List String) (a b : String) : Bool :=
-  !((l.drop (l.idxOf b + 1)).contains a)
-
-/-! ## stream / checkpoint (C08, C04, C07) -/
-
-/-- the stream file is closed before it is renamed to its final name, the rename is the last effect, and
-neither sits in a `finally` block (so a failing run never publishes the file) -/
-theorem C08_stream_publishes_last :
-    before streamFuncSkeleton "close" "rename" = true ∧
-    before streamFuncSkeleton "write" "close" = true ∧
-    noneAfter streamFuncSkeleton "write" "rename" = true ∧
-    noneAfter streamFuncSkeleton "yield" "close" = true ∧
-    streamFuncSkeleton.contains "finally{" = false := by decide
-
-/-- `checkpoint` decides by the existence of the final name only, and never renames anything itself -/
-theorem C08_checkpoint_existence_test_only :
-    before checkpointChainSkeleton "exists" "unstream" = true ∧
-    checkpointChainSkeleton.contains "rename" = false ∧
-    checkpointChainSkeleton.contains "_finalize_pending" = false := by decide
-
-/-! ## file dumpers (C19, C09) -/
-
-/-- a data file is finalised before it is measured and hashed, closed before it is copied out -/
-theorem C19_rows_processor_order :
-    before fileDumperRowsSkeleton "write_row" "finalize_file" = true ∧
-    before fileDumperRowsSkeleton "finalize_file" "tell" = true ∧
-    before fileDumperRowsSkeleton "finalize_file" "hash_handler" = true ∧
-    before fileDumperRowsSkeleton "hash_handler" "close" = true ∧
-    before fileDumperRowsSkeleton "close" "write_file_to_output" = true ∧
-    noneAfter fileDumperRowsSkeleton "write_row" "finalize_file" = true := by decide
-
-/-- the descriptor is handled after the loop over all resource streams; it is written to a temporary file,
-closed, and only then copied out -/
-theorem C19_descriptor_after_resources :
-    before dumperResourcesSkeleton "process_resource" "handle_datapackage" = true ∧
-    before dumperResourcesSkeleton "}" "handle_datapackage" = true ∧
-    noneAfter dumperResourcesSkeleton "yield" "handle_datapackage" = true ∧
-    before fileDumperDescriptorSkeleton "dump" "close" = true ∧
-    before fileDumperDescriptorSkeleton "close" "write_file_to_output" = true := by decide
-
-/-- `to_path` resolves the target against the output directory before it looks whether the file exists -/
-theorem C09_path_resolved_before_existence_test :
-    before pathDumperWriteSkeleton "join" "exists" = true ∧
-    before pathDumperWriteSkeleton "exists" "copy" = true := by decide
-
-/-! ## load (C13) -/
-
-/-- the wrapper chain: cast, then strip, then limit -/
-theorem C13_wrapper_order :
-    before loadResourcesSkeleton "caster" "stripper" = true ∧
-    before loadResourcesSkeleton "stripper" "limiter" = true ∧
-    before loadResourcesSkeleton "missing_values_extractor" "caster" = true := by decide
-
-end Df.Live
+import DfProps.Skeleton.Stream
+import DfProps.Skeleton.Checkpoint
+import DfProps.Skeleton.FileDumperRows
+import DfProps.Skeleton.FileDumperDescriptor
+import DfProps.Skeleton.PathDumper
+import DfProps.Skeleton.Load
